@@ -21,7 +21,7 @@ def tests(tier):
     out = []
 
     def take(mod, pfx, names, cfgs, scale):
-        for t in mod.tests(tier):
+        for t in getattr(mod, "own_tests", mod.tests)(tier):
             if (names is None or t.name in names) and t.kind != "sweep":
                 n = {k: max(60, int(v * scale)) for k, v in t.n.items()}
                 out.append(Test(pfx + "." + t.name, t.strategy, t.run, n, cfgs))
